@@ -204,6 +204,9 @@ func runC09(w *World, r *Report) {
 			r.Undec("R5", "getLimiterState/count", gl.Pos(), "only %d map operations found", n)
 		}
 	}
+	if gl := w.Fn(pkgLimit, "RateLimitState.getLimiterState"); gl != nil {
+		checkInsertIfAbsent(r, la, "R5", "getLimiterState/state-map", gl, "state.groupsStateByLimiter", "param:state.mutex")
+	}
 	if ti := w.Fn(pkgLimit, "RateLimitState.TryToIncrement"); ti != nil {
 		cs := CallsIn(ti, false, "singleRateLimitState).TryToIncrement")
 		ok := len(cs) == 1
